@@ -11,3 +11,9 @@ import (
 // Stubs used when the helper-level harness does not compile against the working tree
 // (an exported helper was renamed or re-shaped): the checks then run their Reconcile-level twins only.
 func c03Helper(t *testing.T, run *h.Run, maxN int) bool { return false }
+
+func c06HelperAvailable() bool                            { return false }
+func c06HelperOne(t *testing.T, run *h.Run, c c06Case) {}
+
+func c09HelperAvailable() bool                            { return false }
+func c09HelperOne(t *testing.T, run *h.Run, c c09Case) {}
